@@ -55,6 +55,10 @@ theorem frame_pure {P : α → Prop} (x : α) (hx : P x) : Frame (V := V) T P (p
 theorem frame_throw {P : α → Prop} (e : Err) : Frame (V := V) T P (M.throw e) :=
   fun a => ⟨Same.refl T a, fun y hy => by cases hy⟩
 
+theorem frame_ofExcept {P : α → Prop} (r : Except Err α) (h : ∀ x, r = .ok x → P x) :
+    Frame (V := V) T P (M.ofExcept r) :=
+  fun a => ⟨Same.refl T a, fun y hy => h y hy⟩
+
 theorem frame_weaken {T' : String → Prop} {P Q : α → Prop} {ma : M (ATab V) α} (h : Frame T P ma)
     (hT : ∀ m, T m → T' m) (hpq : ∀ x, P x → Q x) : Frame T' Q ma :=
   fun a => ⟨(h a).1.mono hT, fun x hx => hpq x ((h a).2 x hx)⟩
@@ -94,7 +98,11 @@ theorem frame_tryFinally {P : α → Prop} {ma : M (ATab V) α} {fin : M (ATab V
     | mk r2 a2 =>
       rw [hf] at s2
       cases r2 with
-      | error e => exact ⟨s1.trans s2, fun x hx => by cases hx⟩
+      | error e =>
+        refine ⟨s1.trans s2, fun x hx => ?_⟩
+        cases r with
+        | ok y => cases hx
+        | error e' => cases e' <;> cases hx
       | ok u => exact ⟨s1.trans s2, fun x hx => p1 x hx⟩
 
 theorem frame_catchIndex {P : α → Prop} {ma : M (ATab V) α} (d : α) (h1 : Frame T P ma) (hd : P d) :
@@ -258,6 +266,7 @@ syntax "frame_leaf" : tactic
 macro_rules | `(tactic| frame_leaf) => `(tactic| first
   | exact frame_pure _ trivial
   | exact frame_throw _
+  | exact frame_ofExcept _ (fun _ _ => trivial)
   | exact frame_size
   | exact frame_has _
   | exact frame_names
@@ -314,6 +323,18 @@ theorem frame_setCoordFromAF (o : Ops V) (c nm : String) :
   unfold setCoordFromAF
   frame_auto
 
+theorem frame_dist2D {T : String → Prop} (o : Ops V) (i j : Nat) :
+    Frame T (fun _ => True) (dist2DOp (σ := ATab V) o i j) := by
+  unfold dist2DOp
+  frame_auto
+macro_rules | `(tactic| frame_leaf) => `(tactic| exact frame_dist2D _ _ _)
+
+theorem frame_speedBetween {T : String → Prop} (o : Ops V) (i j : Nat) :
+    Frame T (fun _ => True) (speedBetweenOp (σ := ATab V) o i j) := by
+  unfold speedBetweenOp
+  frame_auto
+macro_rules | `(tactic| frame_leaf) => `(tactic| exact frame_speedBetween _ _ _)
+
 theorem frame_evalAlgo {T : String → Prop} (o : Ops V) (alg : Algo V) (i : Nat) :
     Frame T (fun _ => True) (evalAlgo (σ := ATab V) o alg i) := by
   cases alg <;> (unfold evalAlgo; frame_auto)
@@ -342,6 +363,88 @@ theorem frame_binaryVoid (o : Ops V) (k : BOp) (in1 in2 out : String) :
 theorem frame_scalarVoid (o : Ops V) (k : SOp) (inp : String) (arg : V) (out : String) :
     Frame (· = out) (fun _ => True) (scalarVoid (σ := ATab V) o k inp arg out) := by
   unfold scalarVoid
+  frame_auto
+
+theorem frame_applyVoid (o : Ops V) (f : V → Except Err V) (inp out : String) :
+    Frame (· = out) (fun _ => True) (applyVoid (σ := ATab V) o f inp out) := by
+  unfold applyVoid
+  frame_auto
+
+theorem frame_scalarDivider (o : Ops V) (inp : String) (arg : V) (out : String) :
+    Frame (· = out) (fun _ => True) (scalarDivider (σ := ATab V) o inp arg out) := by
+  unfold scalarDivider
+  exact frame_ite _ (fun _ => frame_throw _) (fun _ => frame_scalarVoid o _ inp _ out)
+
+theorem frame_scalarRevDivider (o : Ops V) (inp : String) (arg : V) (out : String) :
+    Frame (· = out) (fun _ => True) (scalarRevDivider (σ := ATab V) o inp arg out) := by
+  unfold scalarRevDivider
+  exact frame_bind (P := fun _ => True) (frame_applyVoid o _ inp out) (fun _ _ => frame_scalarVoid o _ out arg out)
+
+theorem frame_shiftCircular (o : Ops V) (inp : String) (arg : V) (out : String) :
+    Frame (· = out) (fun _ => True) (shiftCircular (σ := ATab V) o inp arg out) := by
+  unfold shiftCircular
+  frame_auto
+
+theorem frame_scalarKind (o : Ops V) (k : SKind) (inp : String) (arg : V) (out : String) :
+    Frame (· = out) (fun _ => True) (scalarKind (σ := ATab V) o k inp arg out) := by
+  cases k with
+  | plain s => exact frame_scalarVoid o s inp arg out
+  | divider => exact frame_scalarDivider o inp arg out
+  | revDivider => exact frame_scalarRevDivider o inp arg out
+  | shift => exact frame_shiftCircular o inp arg out
+  | shiftRev => exact frame_shiftCircular o inp _ out
+
+theorem frame_logVoid (o : Ops V) (inp out : String) :
+    Frame (· = out) (fun _ => True) (logVoid (σ := ATab V) o inp out) := by
+  unfold logVoid
+  frame_auto
+
+theorem frame_aggOp {T : String → Prop} (o : Ops V) (f inp : String) :
+    Frame T (fun _ => True) (aggOp (σ := ATab V) o f inp) := by
+  unfold aggOp
+  frame_auto
+
+theorem frame_runVFn (o : Ops V) (f : VFn) (inp out : String) :
+    Frame (· = out) (fun _ => True) (runVFn (σ := ATab V) o f inp out) := by
+  cases f with
+  | integrator => unfold runVFn; exact frame_bind (P := fun _ => True) (frame_unaryVoid o _ inp out) (fun _ _ => frame_pure _ trivial)
+  | differentiator => unfold runVFn; exact frame_bind (P := fun _ => True) (frame_unaryVoid o _ inp out) (fun _ _ => frame_pure _ trivial)
+  | log => unfold runVFn; exact frame_bind (P := fun _ => True) (frame_logVoid o inp out) (fun _ _ => frame_pure _ trivial)
+  | apply name => unfold runVFn; exact frame_bind (P := fun _ => True) (frame_applyVoid o _ inp out) (fun _ _ => frame_pure _ trivial)
+
+theorem frame_fnVoidOp (o : Ops V) (f inp out : String) :
+    Frame (· = out) (fun _ => True) (fnVoidOp (σ := ATab V) o f inp out) := by
+  unfold fnVoidOp
+  cases vfn? f with
+  | none => exact frame_throw _
+  | some vf => exact frame_runVFn o vf inp out
+
+theorem frame_absCurvOp (o : Ops V) :
+    Frame (fun m => m = "ds" ∨ m = "abs_curv") (fun _ => True) (absCurvOp (σ := ATab V) o) := by
+  unfold absCurvOp
+  refine frame_bind (P := fun _ => True) (frame_has _) (fun b1 _ => ?_)
+  refine frame_bind (V := V) (P := fun _ => True) ?_ (fun _ _ => ?_)
+  · refine frame_ite _ (fun _ => frame_pure _ trivial) (fun _ => ?_)
+    exact frame_bind (P := fun _ => True) (frame_weaken (frame_addAF o .ds "ds") (fun m hm => Or.inl hm) (fun _ _ => trivial))
+      (fun _ _ => frame_pure _ trivial)
+  refine frame_bind (P := fun _ => True) (frame_has _) (fun b2 _ => ?_)
+  refine frame_bind (V := V) (P := fun _ => True) ?_ (fun _ _ => ?_)
+  · refine frame_ite _ (fun _ => frame_pure _ trivial) (fun _ => ?_)
+    exact frame_bind (P := fun _ => True)
+      (frame_weaken (frame_unaryVoid o .integrator "ds" "abs_curv") (fun m hm => Or.inr hm) (fun _ _ => trivial))
+      (fun _ _ => frame_pure _ trivial)
+  refine frame_bind (P := fun _ => True) (frame_weaken (frame_remove "ds") (fun m hm => Or.inl hm) (fun _ _ => trivial)) (fun _ _ => ?_)
+  exact frame_get o _
+
+theorem frame_estSpeedOp (o : Ops V) :
+    Frame (· = "speed") (fun _ => True) (estSpeedOp (σ := ATab V) o) := by
+  unfold estSpeedOp
+  refine frame_bind (P := fun _ => True) (frame_has _) (fun b _ => ?_)
+  exact frame_ite _ (fun _ => frame_get o _) (fun _ => frame_addAF o .speed "speed")
+
+theorem frame_segmentOp (o : Ops V) (inp out : String) (thr : V) :
+    Frame (· = out) (fun _ => True) (segmentOp (σ := ATab V) o inp out thr) := by
+  unfold segmentOp
   frame_auto
 
 theorem frame_sumOp {T : String → Prop} (o : Ops V) (inp : String) :
@@ -442,29 +545,85 @@ theorem frame_assignOp (o : Ops V) (op1 op2 : SV V) :
 /-- a value pushed back on the evaluator's stack is never a user name: a number, `None`, or a `#k` temporary -/
 def TempRes (r : SV V) : Prop := ∀ m, r = .tok m → isHash m = true
 
-theorem frame_arithOp (o : Ops V) (b : BOp) (op1 op2 : SV V) (k : Nat) :
-    Frame (fun m => isHash m = true) TempRes (arithOp (σ := ATab V) o b op1 op2 k) := by
+theorem frame_funcOp (o : Ops V) (op1 op2 : SV V) (out : String) (hout : isHash out = true) :
+    Frame (fun m => isHash m = true) TempRes (funcOp (σ := ATab V) o op1 op2 out) := by
+  have hk : ∀ m, m = out → isHash m = true := fun m hm => by rw [hm]; exact hout
+  have hres : TempRes (SV.tok out : SV V) := fun m hm => by cases hm; exact hout
+  unfold funcOp
+  cases op1 with
+  | tok f =>
+    simp only
+    cases vfn? f with
+    | some vf =>
+      cases op2 with
+      | tok s2 =>
+        exact frame_bind (P := fun _ => True) (frame_weaken (frame_runVFn o vf s2 out) hk (fun _ _ => trivial))
+          (fun _ _ => frame_pure _ hres)
+      | num v => exact frame_throw _
+      | none => exact frame_throw _
+    | none =>
+      simp only
+      refine frame_ite _ (fun _ => ?_) (fun _ => ?_)
+      · cases op2 with
+        | tok s2 =>
+          simp only
+          refine frame_bind (P := fun _ => True) (frame_aggOp o f s2) (fun v _ => ?_)
+          refine frame_bind (P := fun _ => True) frame_size (fun k _ => ?_)
+          exact frame_bind (P := fun _ => True) (frame_weaken (frame_create out _) hk (fun _ _ => trivial))
+            (fun _ _ => frame_pure _ hres)
+        | num v => exact frame_throw _
+        | none => exact frame_throw _
+      · exact frame_ite _ (fun _ => frame_throw _) (fun _ => frame_throw _)
+  | num v => exact frame_throw _
+  | none => exact frame_throw _
+
+theorem frame_dispatchOp (o : Ops V) (op1 op2 : SV V) (operator : String) (k : Nat) :
+    Frame (fun m => isHash m = true) TempRes (dispatchOp (σ := ATab V) o op1 op2 operator k) := by
   have hk : ∀ m, m = "#" ++ toString k → isHash m = true := fun m hm => by rw [hm]; exact isHash_temp _
   have hres : TempRes (SV.tok ("#" ++ toString k) : SV V) := fun m hm => by
     cases hm; exact isHash_temp _
+  unfold dispatchOp
+  refine frame_ite _ (fun _ => frame_funcOp o op1 op2 _ (isHash_temp _)) (fun _ => ?_)
+  refine frame_bind (P := fun _ => True) (frame_hasSV op1) (fun a1 _ => ?_)
+  refine frame_bind (P := fun _ => True) (frame_hasSV op2) (fun a2 _ => ?_)
+  cases a1 <;> cases a2 <;> cases op1 <;> cases op2 <;> simp only <;>
+    first
+    | exact frame_throw _
+    | (cases bKind? operator with
+       | none => exact frame_throw _
+       | some b =>
+         cases b with
+         | none => exact frame_throw _
+         | some b =>
+           exact frame_bind (P := fun _ => True)
+             (frame_weaken (frame_binaryVoid o b _ _ _) hk (fun _ _ => trivial)) (fun _ _ => frame_pure _ hres))
+    | (cases sKind? operator with
+       | none => exact frame_throw _
+       | some sk =>
+         exact frame_bind (P := fun _ => True) (frame_toFloat o _) (fun _ _ =>
+           frame_bind (P := fun _ => True)
+             (frame_weaken (frame_scalarKind o sk _ _ _) hk (fun _ _ => trivial)) (fun _ _ => frame_pure _ hres)))
+    | (cases srKind? operator with
+       | none => exact frame_throw _
+       | some sk =>
+         exact frame_bind (P := fun _ => True) (frame_toFloat o _) (fun _ _ =>
+           frame_bind (P := fun _ => True)
+             (frame_weaken (frame_scalarKind o sk _ _ _) hk (fun _ _ => trivial)) (fun _ _ => frame_pure _ hres)))
+
+theorem frame_arithOp (o : Ops V) (operator : String) (op1 op2 : SV V) (k : Nat) :
+    Frame (fun m => isHash m = true) TempRes (arithOp (σ := ATab V) o operator op1 op2 k) := by
   unfold arithOp
   refine frame_bind (P := fun _ => True) (frame_isFloat o op1) (fun f1 _ => ?_)
   refine frame_bind (P := fun _ => True) ?_ (fun f2 _ => ?_)
   · frame_auto
-  refine frame_ite _ (fun _ => ?_) (fun _ => ?_)
-  · refine frame_bind (P := fun _ => True) (frame_toFloat o op1) (fun a _ => ?_)
-    refine frame_bind (P := fun _ => True) (frame_toFloat o op2) (fun c _ => ?_)
-    exact frame_pure _ (fun m hm => by cases hm)
-  · refine frame_bind (P := fun _ => True) (frame_hasSV op1) (fun a1 _ => ?_)
-    refine frame_bind (P := fun _ => True) (frame_hasSV op2) (fun a2 _ => ?_)
-    cases a1 <;> cases a2 <;> cases op1 <;> cases op2 <;> simp only <;>
-      first
-      | exact frame_throw _
-      | exact frame_bind (P := fun _ => True)
-          (frame_weaken (frame_binaryVoid o b _ _ _) hk (fun _ _ => trivial)) (fun _ _ => frame_pure _ hres)
-      | exact frame_bind (P := fun _ => True) (frame_toFloat o _) (fun _ _ =>
-          frame_bind (P := fun _ => True)
-            (frame_weaken (frame_scalarVoid o _ _ _ _) hk (fun _ _ => trivial)) (fun _ _ => frame_pure _ hres))
+  refine frame_ite _ (fun _ => ?_) (fun _ => frame_dispatchOp o op1 op2 operator k)
+  refine frame_bind (P := fun _ => True) (frame_toFloat o op1) (fun a _ => ?_)
+  refine frame_bind (P := fun _ => True) (frame_toFloat o op2) (fun c _ => ?_)
+  cases litOp o operator a c with
+  | none => exact frame_dispatchOp o _ _ operator k
+  | some r =>
+    exact frame_bind (P := fun _ => True) (frame_ofExcept _ (fun _ _ => trivial))
+      (fun _ _ => frame_pure _ (fun m hm => by cases hm))
 
 theorem frame_applyOperation (o : Ops V) (op1 op2 : SV V) (operator : String) (k : Nat) :
     Frame (assignT op1) TempRes (applyOperation (σ := ATab V) o op1 op2 operator k) := by
@@ -472,9 +631,7 @@ theorem frame_applyOperation (o : Ops V) (op1 op2 : SV V) (operator : String) (k
   refine frame_ite _ (fun _ => ?_) (fun _ => ?_)
   · exact frame_bind (P := fun _ => True) (frame_assignOp o op1 op2)
       (fun _ _ => frame_pure _ (fun m hm => by cases hm))
-  · cases bop? operator with
-    | none => exact frame_throw _
-    | some b => exact frame_weaken (frame_arithOp o b op1 op2 k) (fun m hm => Or.inr hm) (fun _ h => h)
+  · exact frame_weaken (frame_arithOp o operator op1 op2 k) (fun m hm => Or.inr hm) (fun _ h => h)
 
 /-- names the stack machine may touch: the non-operator tokens still to be read, the tokens on the stack, `#` names -/
 def rpnT (rpn : List String) (stack : List (SV V)) (m : String) : Prop :=
@@ -577,6 +734,12 @@ def touched : Op V → String → Prop
   | .opaqueVoid _ _ out _, m => m = out
   | .reverser inp out, m => m = out.getD inp
   | .probe _ _, _ => False
+  | .fnVoid _ inp out, m => m = out.getD inp
+  | .scalarK _ inp _ out, m => m = out.getD inp
+  | .aggFn _ _, _ => False
+  | .absCurv, m => m = "ds" ∨ m = "abs_curv"
+  | .estSpeed, m => m = "speed"
+  | .segment _ out _, m => m = out
   | .expr rpn, m => exprT rpn m
 
 theorem frame_step (o : Ops V) (op : Op V) : Frame (touched op) (fun _ => True) (step (σ := ATab V) o op) := by
@@ -594,6 +757,12 @@ theorem frame_step (o : Ops V) (op : Op V) : Frame (touched op) (fun _ => True) 
   | opaqueVoid cols cells out vals => unfold step; exact frame_bind (P := fun _ => True) (frame_opaqueVoid o cols cells out vals) (fun _ _ => frame_pure _ trivial)
   | reverser inp out => unfold step; exact frame_bind (P := fun _ => True) (frame_reverser o inp _) (fun _ _ => frame_pure _ trivial)
   | probe cols cells => unfold step; exact frame_bind (P := fun _ => True) (frame_readAll o cols cells) (fun _ _ => frame_pure _ trivial)
+  | fnVoid f inp out => unfold step; exact frame_fnVoidOp o f inp _
+  | scalarK k inp arg out => unfold step; exact frame_bind (P := fun _ => True) (frame_scalarKind o k inp arg _) (fun _ _ => frame_pure _ trivial)
+  | aggFn f inp => unfold step; exact frame_bind (P := fun _ => True) (frame_aggOp o f inp) (fun _ _ => frame_pure _ trivial)
+  | absCurv => unfold step; exact frame_bind (P := fun _ => True) (frame_absCurvOp o) (fun _ _ => frame_pure _ trivial)
+  | estSpeed => unfold step; exact frame_bind (P := fun _ => True) (frame_estSpeedOp o) (fun _ _ => frame_pure _ trivial)
+  | segment inp out thr => unfold step; exact frame_bind (P := fun _ => True) (frame_segmentOp o inp out thr) (fun _ _ => frame_pure _ trivial)
   | expr rpn => unfold step; exact frame_operateStr o rpn
 
 theorem aread_same (o : Ops V) {T : String → Prop} {a a' : ATab V} (h : Same T a a') (m : String) (hm : ¬ T m) :
